@@ -364,6 +364,26 @@ def run_session(base, sid, seed, two_docs, rounds, mutate_trace=None):
                 break
         if ok:
             ok = quiesce("final")
+        if ok:
+            # the server is quiet: every kind of request once more, one at a time.  Nothing races with these, so whatever an
+            # earlier, overtaken request may have left behind (a cache filled by a task of an older revision) shows here: the
+            # answer oracle re-asks them on the reference server like every other answer
+            for kind in REQ_KINDS:
+                d = rnd.choice(docs)
+                i = sess.new_id()
+                m = {"jsonrpc": "2.0", "id": i, "method": METHODS[kind], "params": make_request(rnd, d, kind)}
+                res.batch += 1
+                res.script.append(("req", d.name, i, kind, res.batch, d.tok(), m["params"], ws_state()))
+                res.nreq += 1
+                sess.send_batch([m])
+                if sess.wait(i, DEADLINE) is None:
+                    res.hung = True
+                    fail({"what": "hang" if sess.alive() else "died", "in_flight": 1, "phase": "settled"},
+                         {"unanswered": [i], "exit_code": sess.exit_code()})
+                    ok = False
+                    break
+            if ok:
+                ok = quiesce("settled")
         last_pub = {d.name: (sess.diagnostics_for(d.path) or [None])[-1] for d in docs}
         if ok:
             # content oracle: one more edit that cannot change any earlier diagnostic
